@@ -220,6 +220,28 @@ func ruleR15_4(c *Check) {
 			okBits = false
 		}
 		r.Check(okBits, fe, "moved entry drops pointer and transaction bits", s, "meta of the moved entry is "+short(w, as.Rhs[0]))
+		// field coverage: the moved entry carries the original's key, value, user meta and expiry,
+		// assigned under the same conditions as its meta
+		if base := baseIdent(as.Lhs[0]); base != nil {
+			for _, fname := range []string{"Key", "Value", "UserMeta", "ExpiresAt"} {
+				fld := w.Field("badger.Entry." + fname)
+				okF := false
+				for _, st := range fe.Sites(selStore(fld)) {
+					a2, ok := st.(*ast.AssignStmt)
+					if !ok || len(a2.Lhs) != 1 || len(a2.Rhs) != 1 {
+						continue
+					}
+					b2 := baseIdent(a2.Lhs[0])
+					if b2 == nil || w.Use(b2) != w.Use(base) || !w.mentions(a2.Rhs[0], fld) {
+						continue
+					}
+					if len(w.Guards(fe, st)) == len(w.Guards(fe, s)) {
+						okF = true
+					}
+				}
+				r.Check(okF, fe, "moved entry keeps the original's "+fname, s, "the entry written back by the GC rewrite does not copy "+fname+" from the entry it moves")
+			}
+		}
 		gs := w.Guards(fe, s)
 		fidEq, offEq := false, false
 		for _, g := range gs {
@@ -651,6 +673,7 @@ func propC06(c *Check) {
 	ruleR06_2(c)
 	ruleR06_3(c)
 	ruleR06_4(c)
+	ruleR15_4(c) // the entry a GC rewrite writes back carries the original's value and metadata
 }
 
 // counterSel selects the sites that move an atomic counter field in one direction: a direct
